@@ -44,6 +44,13 @@ func (rt *Transfer) deleteFiles(fileList []*File) error {
 			if findInFileList(fileList, path) {
 				return nil
 			}
+			if rt.Filter != nil && path != "." && rt.Filter.Matches(path) {
+				// excluded entries are protected from deletion
+				if info.IsDir() {
+					return fs.SkipDir
+				}
+				return nil
+			}
 			if rt.Opts.Verbose {
 				rt.Logger.Printf("  deleting %s", path)
 			}
